@@ -408,6 +408,40 @@ func (o *oracleC19) after(c *stepCtx) *ViolationRec {
 			}
 			return fail("factory-attrs", "new Decimal has prec=%d mode=%d, context has prec=%d mode=%d", post.Prec, post.Mode, o.prec, o.mode)
 		}
+		// value: the argument's exact value rounded once to the context
+		var want refValue
+		have := false
+		switch op.Name {
+		case "c.NewInt64":
+			b := big.NewInt(op.I)
+			want, have = refFinish(b.Sign() < 0, new(big.Int).Abs(b), 0, false, o.prec, int(o.mode)), true
+		case "c.NewUint64":
+			want, have = refFinish(false, new(big.Int).SetUint64(op.U), 0, false, o.prec, int(o.mode)), true
+		case "c.NewInt":
+			b := parseBig(op.S)
+			want, have = refFinish(b.Sign() < 0, new(big.Int).Abs(b), 0, false, o.prec, int(o.mode)), true
+		case "c.NewRat":
+			q := parseRat(op.S)
+			if q.Sign() != 0 {
+				num, den := new(big.Int).Abs(q.Num()), q.Denom()
+				want, have = refArith("Quo", []refNum{{form: 1, neg: q.Sign() < 0, D: num}, {form: 1, D: den}}, o.prec, int(o.mode))
+			}
+		case "c.NewString":
+			if l := lexLiteral(op.S, 0); l.ok && !l.inf && !l.zero && l.base == 10 && l.exp2 == 0 && absI64(l.exp10) < 1<<40 {
+				want, have = refFinish(l.neg, l.mant, l.exp10, false, o.prec, int(o.mode)), true
+			}
+		}
+		if have {
+			o.cnt["factory_values_checked"]++
+			got := refValue{Form: post.Form, Neg: post.Neg, Digits: post.Digits, Exp: int64(post.Exp)}
+			if got.Form != 1 {
+				got.Digits, got.Exp = "", 0
+			}
+			want.Acc = 0
+			if got != want {
+				return fail("ctx-not-correctly-rounded", "factory result is not the argument rounded once to prec=%d mode=%d:\n  got      %+v\n  expected %+v", o.prec, o.mode, got, want)
+			}
+		}
 		return nil
 	}
 	// arithmetic
